@@ -26,14 +26,17 @@ SPEC = dict(
         Leg('memcheck', 'h_tunnel', 'plain', opts={'mode': 'sampled'}, quick=800, thorough=16000, workers=16, valgrind=True),
         Leg('memcheck_exh', 'h_tunnel', 'plain', opts={'mode': 'exh'}, quick=160, thorough=3200, workers=16, valgrind=True),
     ],
-    min_stats={'exh': {'fault_scripts': 1000000, 'scripts_permutation': 300000, 'scripts_loss_subset': 50000, 'scripts_one_duplicate': 50000,
-                       'scripts_product': 500000, 'cases_whole_sequence_exhaustive': 1000, 'cases_mtu_min': 100, 'cases_mtu_min_plus_1': 100,
-                       'cases_mtu_min_plus_2': 100, 'cases_mtu_64': 100, 'cases_mtu_1500': 100, 'cases_senders_2': 1000, 'cases_senders_3': 1000,
-                       'cases_kind_tunnel': 2000, 'cases_kind_mini': 1000, 'cases_kind_tunnel+slave': 300, 'cases_kind_mini+slave': 300,
-                       'cases_mini_zlib': 500, 'mini_packets_deflated': 500, 'mini_messages_fitting_the_mtu_exactly': 200,
-                       'tunnel_messages_fragmented': 5000, 'tunnel_packets_with_several_chunks': 1000, 'messages_sent_after_id_wraparound': 200,
-                       'cases_equal_size_messages': 2000, 'messages_lost_to_faults': 100000, 'messages_delivered_under_faults': 1000000},
-               'sampled': {'fault_scripts': 300000, 'identity_scripts': 40000, 'cases_mtu_min': 500, 'cases_mtu_1500': 500, 'cases_senders_3': 5000,
-                           'tunnel_messages_fragmented': 100000, 'messages_sent_after_id_wraparound': 10000, 'mini_packets_deflated': 10000,
-                           'max_packets_in_a_case': 500, 'messages_delivered_under_faults': 1000000}},
+    min_stats={'exh': {'fault_scripts': 1000000, 'scripts_permutation': 350000, 'scripts_loss_subset': 50000, 'scripts_one_duplicate': 50000,
+                       'scripts_product': 600000, 'cases_whole_sequence_exhaustive': 1400, 'cases_mtu_min': 130, 'cases_mtu_min_plus_1': 130,
+                       'cases_mtu_min_plus_2': 130, 'cases_mtu_64': 110, 'cases_mtu_1500': 110, 'cases_senders_2': 1000, 'cases_senders_3': 1000,
+                       'cases_kind_tunnel': 1500, 'cases_kind_mini': 700, 'cases_kind_tunnel+slave': 250, 'cases_kind_mini+slave': 250,
+                       'cases_mini_zlib': 600, 'mini_packets_deflated': 700, 'mini_messages_fitting_the_mtu_exactly': 250,
+                       'mini_cases_with_several_chunks_per_packet': 200, 'tunnel_messages_fragmented': 5000,
+                       'tunnel_packets_with_several_chunks': 1400, 'tunnel_messages_ending_exactly_at_packet_end': 1400,
+                       'messages_sent_after_id_wraparound': 250, 'cases_equal_size_messages': 1500, 'messages_lost_to_faults': 1000000,
+                       'messages_delivered_under_faults': 4000000, 'write_holds': 1500},
+               'sampled': {'fault_scripts': 130000, 'identity_scripts': 35000, 'cases_mtu_min': 600, 'cases_mtu_1500': 500, 'cases_senders_3': 5000,
+                           'tunnel_messages_fragmented': 100000, 'messages_sent_after_id_wraparound': 10000, 'mini_packets_deflated': 15000,
+                           'mini_messages_fitting_the_mtu_exactly': 6000, 'max_packets_in_a_case': 500, 'messages_delivered_under_faults': 1000000,
+                           'messages_lost_to_faults': 600000, 'write_holds': 40000}},
 )
